@@ -23,6 +23,10 @@ CHECKS = {
         text="Parse-first identity: for every message and extension class and arbitrary symbolic input bytes of each enumerated length, z3 proves on every accepting path that the parser consumed exactly the declared length and that write(parse(b)) == b byte for byte (for the four classes that normalise by design: that the normal form is a fixed point). This gives at once: no trailing bytes swallowed, no inner/outer length disagreement accepted, no read past the end, and parse(write(v)) == v for every v in the image of parse.",
         note="Bounded by the enumerated lengths (extension payloads 0..8 quick / 0..16 thorough; messages up to 49/57 bytes); X.509 bodies opaque; value-first checks for values outside the image of parse (2^16/2^24-sized lists) are not covered.",
         design="5/C15", technique=T),
+    "C09": dict(
+        text="Kernels as exact bit-vector equivalences against an independent transcription of the RFC (ChaCha20 quarter/double round, 20-round block function, serialisation, keystream XOR for all keys, nonces, counters and plaintexts of the enumerated lengths; Poly1305 with its two field operations abstracted); modes and derivations with the kernels/hashes as uninterpreted functions: CBC and CTR incl. state carried across calls, AES-GCM, AES-CCM/CCM-8, ChaCha20-Poly1305 seal/open (open inverts seal and accepts exactly the right tag), 3DES-EDE-CBC keying, P_hash/PRF/PRF_SSL, HKDF-Expand(-Label)/Derive-Secret, and calc_key's PRF/seed/transcript choice per version, suite and label.",
+        note="SHA/MD5 are the C library (uninterpreted); AES/DES round functions are abstracted as bijections (rijndael.py/Des kernels not yet encoded); GHASH multiplication is abstracted in the GCM mode check; HMAC is the standard library's in this environment (the fallback class in tlshmac.py is never defined); lengths as enumerated.",
+        design="5/C09", technique=T),
     "C12": dict(
         text="For every enumerated (version, MAC, body length, block size) the real ct_check_cbc_mac_and_pad is executed on a fully symbolic body, sequence number and content type and z3 proves it equivalent to the plain specification (MAC modelled as an uninterpreted function of its whole input); the ct_* helpers are proved for all 32-bit arguments. Bounded by the enumerated lengths (quick: 5 lengths per MAC + two window-edge lengths; thorough: every n <= 80 and window edges to 400).",
         note="HMAC/SSLv3 MAC abstracted as uninterpreted function per input length; lengths outside the enumerated shapes are not covered; z3 and the symx engine are trusted (engine validated by lib/selfcheck.py and native replay of every counterexample).",
